@@ -25,7 +25,9 @@ def script(w):
 
 
 def run_script(mode):
-    w = World(pids=["a", "ab", "b"], contents=[C_ONE, C_MULTI], formats=[None, "c"], mode=mode, sym_dirs=True)
+    from . import fault     # single-threaded stand-ins: a wait() that nobody can end raises instead of hanging
+    w = World(pids=["a", "ab", "b"], contents=[C_ONE, C_MULTI], formats=[None, "c"], mode=mode, sym_dirs=True,
+              threading_mod=fault.SEQ_THREADING, multiprocessing_mod=fault.SEQ_MULTIPROCESSING)
     try:
         ps = PathSym(w.inv())
         ps.begin()
